@@ -508,10 +508,10 @@ where
     fn split_text<'b>(&'slf self, delimiter: &'b str) -> SplitTextIter<'store, 'b> {
         SplitTextIter {
             resource: self.resource(),
-            iter: self.store().text().split(delimiter),
-            byteoffset: self
-                .subslice_utf8_offset(self.text())
-                .expect("subslice must succeed for split_text"),
+            //split only the text of this selection; the pieces are slices of the resource's text, so
+            //SplitTextIter resolves their absolute byte offsets itself and there is nothing to subtract
+            iter: self.text().split(delimiter),
+            byteoffset: 0,
         }
     }
 
@@ -713,10 +713,10 @@ where
     fn split_text<'b>(&'slf self, delimiter: &'b str) -> SplitTextIter<'store, 'b> {
         SplitTextIter {
             resource: self.resource(),
-            iter: self.store().text().split(delimiter),
-            byteoffset: self
-                .subslice_utf8_offset(self.text())
-                .expect("subslice must succeed for split_text"),
+            //split only the text of this selection; the pieces are slices of the resource's text, so
+            //SplitTextIter resolves their absolute byte offsets itself and there is nothing to subtract
+            iter: self.text().split(delimiter),
+            byteoffset: 0,
         }
     }
 
